@@ -27,8 +27,8 @@ class C08(Prop):
                 "NV.C08.superWalk_clear", "NV.C08.acyclic_redirect", "NV.C08.init_inv"]
     consts = [("oDestructed", "O_DESTRUCTED"), ("oEnableCommands", "O_ENABLE_COMMANDS"), ("oClone", "O_CLONE")]
     const_headers = ["lpc/object.h"]
-    quick_n = 260
-    thorough_n = 2500
+    quick_n = 700
+    thorough_n = 6000
     search_n = 600
     design_ref = "5/C08"
     technique = ("Lean 4 proof (registry/inventory invariant preserved by every primitive and, by induction on fuel, by every "
